@@ -55,16 +55,17 @@ Definition significant (o : outcome) : bool :=
 (* handshake-fault case: (initial state, events, expected significant outcomes,
    closed and session after the handshake call [= before the last two events], closed and
    session at the end) *)
-Definition HsCase := (st * list event * list outcome * bool * option bool * bool * option bool)%type.
+Definition HsCase := (st * list event * list outcome * bool * option bool * bool * option bool * bool)%type.
 
 Definition chk_hs (c : HsCase) : bool :=
-  let '(s0, evs, want, closed_hs, sess_hs, closed_end, sess_end) := c in
+  let '(s0, evs, want, closed_hs, sess_hs, closed_end, sess_end, sock_closed_end) := c in
   let n := (length evs - 2)%nat in
   let '(s1, o1) := run s0 (firstn n evs) in
   let '(s2, o2) := run s1 (skipn n evs) in
   list_eqb outcome_eqb (filter significant (o1 ++ o2)) want
   && Bool.eqb (closed s1) closed_hs && optbool_eqb (sess s1) sess_hs
-  && Bool.eqb (closed s2) closed_end && optbool_eqb (sess s2) sess_end.
+  && Bool.eqb (closed s2) closed_end && optbool_eqb (sess s2) sess_end
+  && Bool.eqb (negb (sock_open s2)) sock_closed_end.
 
 (* data-phase script: (initial state, events, expected significant outcomes, closed, session,
    optional wire as decrypted by the peer, quiet-at-start flag) *)
@@ -97,4 +98,4 @@ Fixpoint recv_unqueued (s : st) (evs : list event) : bool :=
   end.
 
 Definition chk_hs_wf (c : HsCase) : bool :=
-  let '(s0, evs, _, _, _, _, _) := c in recv_unqueued s0 evs.
+  let '(s0, evs, _, _, _, _, _, _) := c in recv_unqueued s0 evs.
